@@ -200,7 +200,7 @@ fn variant_name<E: std::fmt::Debug>(e: &E) -> String {
 }
 
 /// Reference reassembler of the statement: returns Err(reason) or Ok(concatenated payload).
-fn reference_reassemble(chunks: &[ChunkSpec]) -> Result<Vec<u8>, &'static str> {
+pub fn reference_reassemble(chunks: &[ChunkSpec]) -> Result<Vec<u8>, &'static str> {
     if chunks.is_empty() {
         return Err("empty");
     }
